@@ -8,6 +8,7 @@
 (*   Valid => completes   /\   ~Valid => refused (algorithm-input error)   *)
 (* On the tree as given Outcome had ten named deviations (D2-D11: wrong    *)
 (* exception classes inside the validation, True accepted as a number,     *)
+(* a loaded scalar-noise model (found later, same handling),               *)
 (* models without sources, non-positive mean interval accepted and         *)
 (* looping, spacing < 0.001, table without ID column, integer identifiers, *)
 (* a single individual); every one was repaired by a "fix:" commit, so     *)
@@ -29,13 +30,14 @@ CONSTANTS VisitTypes,   \* {"random", "dataframe", "other"}
           IdKinds,      \* table: {"str", "int"}
           TabShapes,    \* table rows: {"plain", "unsorted_repeat" (an individual's rows out of order, one age twice), "late" (ages decades after onset)}
           SrcDims,      \* sources of the model: {1, 0}
+          NoiseKinds,   \* noise of the model: {"diag" (per feature, model just fitted), "scalar_loaded" (one level, model loaded from a file)}
           MaxDev,       \* explore designs with at most MaxDev attributes off the valid base
           Deviations    \* named deviations modelled as built (none on the repaired tree)
 VARIABLES d
 Base == [vt |-> "random", pn |-> "pos", std |-> "ok", dmean |-> "pos", dstd |-> "pos", spacing |-> "one", fu |-> "pos", feats |-> "ok",
-         missing |-> FALSE, cols |-> "ok", nulltime |-> FALSE, idkind |-> "str", tab |-> "plain", src |-> 1]
+         missing |-> FALSE, cols |-> "ok", nulltime |-> FALSE, idkind |-> "str", tab |-> "plain", src |-> 1, noise |-> "diag"]
 Designs == [vt : VisitTypes, pn : PNs, std : Stds, dmean : DMeans, dstd : DStds, spacing : Spacings, fu : FollowUps, feats : FeatKinds,
-            missing : Missing, cols : Cols, nulltime : NullTimes, idkind : IdKinds, tab : TabShapes, src : SrcDims]
+            missing : Missing, cols : Cols, nulltime : NullTimes, idkind : IdKinds, tab : TabShapes, src : SrcDims, noise : NoiseKinds]
 NDev(x) == Cardinality({k \in DOMAIN Base : x[k] # Base[k]})
 \* attributes of the other visit type are irrelevant: keep them at their base value
 Canonical(x) == /\ (x.vt # "random" => (x.pn = "pos" /\ x.std = "ok" /\ x.dmean = "pos" /\ x.dstd = "pos" /\ x.spacing \in {"one", "absent"}
